@@ -63,6 +63,9 @@ let run_commchk cid t =
   pr "FI" (fun q -> forward (-7) w ids (nat_of_int q));
   let blk = List.map (List.map (fun g -> (10 * g, 10 * g + 1))) ids in
   pr "FBI" (fun q -> List.concat (List.map (fun (a, b) -> [a; b]) (forward (-7, -7) w blk (nat_of_int q))));
+  (* the same block exchange through the expanded package (Dist/ParBlock.v): two scalars per id *)
+  let flat = List.map (fun l -> List.concat (List.map (fun (a, b) -> [a; b]) l)) blk in
+  pr "FBX" (fun q -> forward (-7) (expand_world (nat_of_int 2) w) flat (nat_of_int q));
   let yi = List.mapi (fun pp cm -> List.mapi (fun j _ -> (pp + 1) * 100 + j) cm) colmaps in
   let ysel = List.mapi (fun pp cm -> List.map (fun c -> if (c + pp) mod 3 = 0 then -1 else c) cm) colmaps in
   pr "RSI" (fun q -> reverse (fun b a -> b + a) w yi (List.map (fun g -> 1000 * g) (List.nth ids q)) (nat_of_int q));
